@@ -3,6 +3,15 @@ from fractions import Fraction
 
 from driver import main
 from rfafam import run_rfa_check, random_rfa_case, lattice_series, R, ALL, bump
+from rfafam import params as _params
+
+
+def rfafam_params(rng, s, n):
+    p = _params(rng, s, n, exact=False)
+    p.pop("exp_f", None)
+    p.pop("smooth_f", None)
+    p["smooth"] = 1
+    return p
 
 
 def extra(c):
@@ -11,6 +20,16 @@ def extra(c):
     for _ in range(1500 if c.thorough else 250):          # larger m and n, integer / float / list abscissae
         k = random_rfa_case(rng, exact=False, strategies=ALL, mmax=rng.choice([6, 20, 60]), nmax=rng.choice([8, 64]), vals=tuple(range(-40, 41)), den=8)
         out.append(k)
+    # every n in 2..64 (bit-for-bit n-th abscissae can depend on a single n), on integer, non-dyadic float and negative abscissae
+    sweeps = [([Fraction(i) for i in range(5)], "int"), ([Fraction(k, 7) for k in (3, 5, 11, 12, 20, 31)], "array"),
+              ([Fraction(k, 10) for k in (-47, -31, -30, -12, 5)], "array")]
+    for xs, cont in sweeps:
+        for n in range(2, 65):
+            for s in (ALL if c.thorough else ["PiecewiseConstant", "LinearFixed", "CubicSpline"]):
+                k = {"fn": "rfa", "strategy": s, "x": [R(v) for v in xs], "y": [R(Fraction((i * 7) % 5 - 2)) for i in range(len(xs))], "n": n,
+                     "container": cont}
+                k.update(rfafam_params(rng, s, n))
+                out.append(k)
     for _ in range(400 if c.thorough else 80):            # rejects: n below 2 (integer and float)
         xs, ys = lattice_series(rng)
         nf = rng.choice([1, 0, -3, 1.5, 1.999])
@@ -32,7 +51,7 @@ main(lambda: run_rfa_check(
     "lattice: every series (integer abscissae, gaps from the instance's set, values from its value set), every n, every explicit "
     "window a in 0..n and 20 parameter combinations of the four window strategies, emitted by TLC (MC_Rfa) + piecewise-constant "
     "and cubic-spline runs on the same series; harness-originated: seeded random series with m up to 60, n up to 64, int/float/list "
-    "abscissae, real parameters; rejects n in {1,0,-3,1.5,1.999}. Judged clauses: container type, lengths (m-1)n+1, finiteness, "
+    "abscissae, real parameters; every n in 2..64 on integer / non-dyadic float / negative abscissae; rejects n in {1,0,-3,1.5,1.999}. Judged clauses: container type, lengths (m-1)n+1, finiteness, "
     "grid = n-fold linspace of x, strictly increasing, every n-th abscissa bit-identical. non-trivial = m >= 3 and n >= 3 and "
     "non-uniform or non-constant; distinct by full input",
     extra,
